@@ -10,6 +10,8 @@ CLAIMS = {
          "trusted: govc, go/ssa, SMT solvers. Not covered yet: groupByHour, sort/merge, buffer bookkeeping, schedules."),
  "C06": ("proof", "ParseEnvelope (the reader's envelope decoder) is proved panic-free and functionally exact for every byte string; a genuine uint16-wrap panic was found by the verifier, replayed, and fixed.",
          "trusted: govc, go/ssa, SMT solvers, binary.BigEndian contract. Frame reader loop (readEntry/ReadAll) not yet under contract."),
+ "C08": ("proof", "Every os/filepath sink of LocalBackend (15 methods) is reached only with a path proved inside the root by validatePath (ghost `escaped` flag over assumed lexical filepath contracts); Write/WriteReader/AppendReader promote a staging file only after all bytes were written and the file closed without error, and WriteReader only with the declared size. Found and fixed: short clean read promoted; known finding: a key resolving to the root stages outside it.",
+         "trusted: govc, go/ssa, SMT solvers; fs.spec (lexical filepath semantics, process-crash FS model, no symlinks); ValidateManifestPath / edge-sync path validators not yet under contract."),
  "C13": ("proof", "restoreDataFiles returns nil only if no per-file restore failed (loop contract with a ghost failure counter), and RestoreBackup reports completion only then; every path including cancellation is covered. The defect (failed file skipped, success reported) was found by the verifier, demonstrated by fault injection on the real code, and fixed.",
          "trusted: govc, go/ssa, SMT solvers; ghost counter contract of streamRestoreFile; backend List completeness; byte fidelity rests on C08. Backup side not yet under contract."),
  "C26": ("proof", "Nonce cache Track/evict contracts (map-level, all states), validator freshness contract, lemma no.replay (ttl >= 2*tol+1s suffices), and call-site obligations that every NewNonceCache construction passes such a TTL. Found TTL=tolerance (fixed) and a MinInt64 drift wrap (known finding).",
